@@ -56,6 +56,23 @@ CHECKS['C09'] = dict(
     note='Trusted: Lean kernel; translator T2 (validated differentially on every run); Python slice/regex-search primitives as modelled in Sourcer/PyPrim.lean.',
     design='7 (C09), 4.1 T2')
 
+CHECKS['C08'] = dict(
+    technique='Lean 4 theorems (outcome of parse fixed by the spec match; no IndexError because all spans and positions stay inside the input, incl. lookahead/Backtrack) on top of the C01 refinement + API-level differential correspondence over every entry point x offset x fullparse',
+    text=('Proof: C08_match_outcome (match => value or PartialParseError(value, end) exactly by fullparse/end-of-input, finalisation never raises: peg_bounded shows every span and position of a parsed value lies in [0, len] for all programs) '
+          'and C08_failure_outcome (no match => ParseError, index in [pos, len]) for every locally sound flag table. Tie: module-level parse, R.parse and C.parse of every rule/class of generated grammars on all short inputs, every start '
+          'offset and both fullparse values, compared with the Lean parseApi(gen) and with the spec outcome. PARTIAL: the offset-shift law and parameterised-class entry points are checked on the implementation only (metamorphic).'),
+    note='Trusted as for C01; _finalize_parse_info is modelled by hand (Sourcer/Api.lean: finalize, parseApi) and tied by the correspondence.',
+    design='7 (C08)')
+
+CHECKS['C10'] = dict(
+    technique='Lean 4 theorems on spans in the specification (exact span of a class instance, nesting, successive members/elements in successive intervals) + C01 refinement + translated line/column theorem + every-instance differential correspondence',
+    text=('Proof: C10_span_exact (an instance carries (position where its match began, position where it ended)), C10_finalized_end, C10_nested (every span inside a value parsed from p to p\' lies in [p, p\'], by induction over all constructs), '
+          'C10_ordered_seq / C10_ordered_list (values of successive members/elements occupy successive intervals) for programs without value-producing lookahead and Backtrack; the code model computes the same values (C01), '
+          'line and column of an offset are Tie.linecol_spec. Tie: every instance of every result of generated class grammars (nested, repeated, optional, separated, memo-reused, behind abandoned alternatives, with ignore, pos>0, multi-line) is compared '
+          'with the model (index spans) and with the line/column of its offsets.'),
+    note='Trusted as for C01/C09; conversion-exactly-once of shared instances is checked on the implementation only.',
+    design='7 (C10)')
+
 NOT_YET = {
 }
 
